@@ -18,7 +18,7 @@ BOUNDS = ("One call from an arbitrary pre-state; on every path where the call ra
           "feed, power, tool/coolant/halt status and modes, tool number, remembered parameters, "
           "target temperatures, units, plane, resolution) is unchanged. Cell grid: 96 call shapes "
           "x bounds table {none, all seven properties set} x machine state {idle, tool+coolant "
-          "running} x {G90, G91, G91 with a pause pending} (quick: the last two for the idle machine only). Solver over: arguments (reals, NaN, +-inf), integer arguments, pre-state "
+          "running} x {G90, G91, G91 with a pause pending} (quick: the last two for the idle machine only) x how the pre-state is reached {installed directly, through public calls from a fresh builder (a true history)}. Solver over: arguments (reals, NaN, +-inf), integer arguments, pre-state "
           "feed/power/x-coordinate, and the feed-rate, tool-power and temperature ranges "
           "(any min<max; the three temperature ranges are shifted copies of one symbolic range so "
           "that they differ); axes box fixed to [0,10]^3, tool-number range to [1,9].")
@@ -44,7 +44,7 @@ def classify(e) -> str:
     return f"other-{name}"
 
 
-def _make(step, tool, coolant, bmode, relative=False, halt=None):
+def _make(step, tool, coolant, bmode, relative=False, halt=None, history=False):
     def core(f, n, px, feed, power, flo, fhi, plo, phi, tlo, thi):
         assume(feed >= 0)
         assume(power >= 0)
@@ -64,7 +64,7 @@ def _make(step, tool, coolant, bmode, relative=False, halt=None):
                       "axes": ((0.0, 0.0, 0.0), (10.0, 10.0, 10.0))}
         pre = mkpre(pos=(px, 2.0, 3.0), tool=tool, coolant=coolant, feed=feed, relative=relative, halt=halt,
                     power=power if tool else 0, bounds=bounds)
-        g, rec = prepare(pre)
+        g, rec = prepare(pre, history)
         before = snapshot(g)
         e = attempt(step.call, g, f, n)
         if e is None:
@@ -130,6 +130,10 @@ def cells(tier):
                 if (tool, coolant) != states[0] and tier == "quick":
                     continue
                 out.append(Cell(name + "|G91", _make(step, tool, coolant, bmode, relative=True),
+                                budget_s=120 if tier == "quick" else 400,
+                                entry=f"GCodeBuilder.{step.name.split(':')[0].split('(')[0]}"))
+                out.append(Cell(name + "|via-public-history",
+                                _make(step, tool, coolant, bmode, history=True),
                                 budget_s=120 if tier == "quick" else 400,
                                 entry=f"GCodeBuilder.{step.name.split(':')[0].split('(')[0]}"))
                 out.append(Cell(name + "|G91|halt-pending",
